@@ -98,10 +98,17 @@ func (c *FnCtx) appendModel(st *State, s Term, et types.Type, elems []Term, src 
 	fc := c.fresh("ap_newcap", SInt)
 	c.assume("", fmt.Sprintf("(>= %s (+ %s %s))", fc, ln, n))
 	ncap := fmt.Sprintf("(ite %s %s %s)", inpl, cp, fc)
-	oldA := fmt.Sprintf("(select %s %s)", A, arr)
+	oldA := c.define("ap_old", asort, fmt.Sprintf("(select %s %s)", A, arr))
+	var srcAN string
+	if src != nil && !srcIsString {
+		srcAN = c.define("ap_src", asort, fmt.Sprintf("(select %s %s)", A, slArr(src.S)))
+	}
 	B0 := c.fresh("ap_base", asort)
 	c.assume("", fmt.Sprintf("(forall ((j Int)) (! (and (=> %s (= (select %s j) (select %s j))) (=> (and (not %s) (<= 0 j) (< j %s)) (= (select %s j) (select %s (+ %s j))))) :pattern ((select %s j))))",
 		inpl, B0, oldA, inpl, ln, B0, oldA, off, B0))
+	// the same facts indexed from the source side (creates the new-array terms from old-array terms)
+	c.assume("", fmt.Sprintf("(forall ((m Int)) (! (and (=> %s (= (select %s m) (select %s m))) (=> (and (not %s) (<= %s m) (< m (+ %s %s))) (= (select %s (- m %s)) (select %s m)))) :pattern ((select %s m))))",
+		inpl, B0, oldA, inpl, off, off, ln, B0, off, oldA, oldA))
 	var B string
 	if src == nil {
 		B = B0
@@ -114,14 +121,33 @@ func (c *FnCtx) appendModel(st *State, s Term, et types.Type, elems []Term, src 
 		if srcIsString {
 			srcSel = fmt.Sprintf("(strat %s (- j (+ %s %s)))", src.S, noff, ln)
 		} else {
-			srcSel = fmt.Sprintf("(select (select %s %s) (+ %s (- j (+ %s %s))))", A, slArr(src.S), slOff(src.S), noff, ln)
+			srcSel = fmt.Sprintf("(select %s (+ %s (- j (+ %s %s))))", srcAN, slOff(src.S), noff, ln)
 		}
 		c.assume("", fmt.Sprintf("(forall ((j Int)) (! (= (select %s j) (ite (and (<= (+ %s %s) j) (< j (+ %s %s %s))) %s (select %s j))) :pattern ((select %s j))))",
 			B, noff, ln, noff, ln, n, srcSel, B0, B))
+		c.assume("", fmt.Sprintf("(forall ((j Int)) (! (=> (not (and (<= (+ %s %s) j) (< j (+ %s %s %s)))) (= (select %s j) (select %s j))) :pattern ((select %s j))))",
+			noff, ln, noff, ln, n, B, B0, B0))
+		if !srcIsString {
+			srcA := srcAN
+			c.assume("", fmt.Sprintf("(forall ((m Int)) (! (=> (and (<= %s m) (< m (+ %s %s))) (= (select %s (+ %s %s (- m %s))) (select %s m))) :pattern ((select %s m))))",
+				slOff(src.S), slOff(src.S), n, B, noff, ln, slOff(src.S), srcA, srcA))
+		}
 	}
 	c.set(st, reg, fmt.Sprintf("(store %s %s %s)", A, narr, B))
 	res := mkSlice(narr, noff, fmt.Sprintf("(+ %s %s)", ln, n), ncap)
-	return Term{S: c.define("ap_res", SSlice, res), Sort: SSlice, T: rt}
+	rt2 := Term{S: c.define("ap_res", SSlice, res), Sort: SSlice, T: rt}
+	// consequences stated over the terms later readers use (chains of appends)
+	newA := c.get(st, reg)
+	rsel := fmt.Sprintf("(select %s (sl_arr %s))", newA, rt2.S)
+	rsel = c.define("ap_resarr", asort, rsel)
+	if src != nil && !srcIsString {
+		srcA := srcAN
+		c.assume("", fmt.Sprintf("(forall ((m Int)) (! (=> (and (<= %s m) (< m (+ %s %s))) (= (select %s (+ %s %s (- m %s))) (select %s m))) :pattern ((select %s m))))",
+			slOff(src.S), slOff(src.S), n, rsel, noff, ln, slOff(src.S), srcA, srcA))
+	}
+	c.assume("", fmt.Sprintf("(forall ((m Int)) (! (and (=> (and %s (not (and (<= (+ %s %s) m) (< m (+ %s %s %s))))) (= (select %s m) (select %s m))) (=> (and (not %s) (<= %s m) (< m (+ %s %s))) (= (select %s (- m %s)) (select %s m)))) :pattern ((select %s m))))",
+		inpl, noff, ln, noff, ln, n, rsel, oldA, inpl, off, off, ln, rsel, off, oldA, oldA))
+	return rt2
 }
 
 func (c *FnCtx) copyModel(st *State, d, s Term, et types.Type, srcIsString bool) Term {
@@ -145,6 +171,13 @@ func (c *FnCtx) copyModel(st *State, d, s Term, et types.Type, srcIsString bool)
 	}
 	c.assume("", fmt.Sprintf("(forall ((j Int)) (! (= (select %s j) (ite (and (<= %s j) (< j (+ %s %s))) %s (select (select %s %s) j))) :pattern ((select %s j))))",
 		B, doff, doff, n, srcSel, A, darr, B))
+	c.assume("", fmt.Sprintf("(forall ((j Int)) (! (=> (not (and (<= %s j) (< j (+ %s %s)))) (= (select %s j) (select (select %s %s) j))) :pattern ((select (select %s %s) j))))",
+		doff, doff, n, B, A, darr, A, darr))
+	if !srcIsString {
+		srcA := c.define("cp_src", asort, fmt.Sprintf("(select %s %s)", A, slArr(s.S)))
+		c.assume("", fmt.Sprintf("(forall ((m Int)) (! (=> (and (<= %s m) (< m (+ %s %s))) (= (select %s (+ %s (- m %s))) (select %s m))) :pattern ((select %s m))))",
+			slOff(s.S), slOff(s.S), n, B, doff, slOff(s.S), srcA, srcA))
+	}
 	c.set(st, reg, fmt.Sprintf("(store %s %s %s)", A, darr, B))
 	return Term{S: n, Sort: SInt, T: types.Typ[types.Int]}
 }
